@@ -32,23 +32,16 @@ fn range_set_i64<const N: usize>() {
         i += 1;
     }
     assert!(got == want, "x in the brace list <=> some listed range contains x");
-    // representation invariant
-    assert!(set.ranges.len() <= N);
-    let mut i = 0;
-    while i < set.ranges.len() {
-        assert!(set.ranges[i].start() <= set.ranges[i].end());
-        if i + 1 < set.ranges.len() {
-            assert!(set.ranges[i].end() < set.ranges[i + 1].start(), "stored ranges are sorted and disjoint");
-        }
-        i += 1;
-    }
+    // (the stored representation - sorted, merged ranges - is deliberately NOT asserted:
+    // the property speaks about membership only, and a different but correct
+    // representation must not raise an alarm)
     if N > 0 {
         kani::cover!(got, "member");
     }
     kani::cover!(!got, "non-member");
     if N >= 2 {
         kani::cover!(los[0] > los[N - 1], "unsorted input");
-        kani::cover!(got && set.ranges.len() < N, "member of a merged range");
+        kani::cover!(got && los[0] <= his[1] && los[1] <= his[0], "member of overlapping ranges");
         kani::cover!(los[0] == i64::MIN && his[0] == i64::MAX, "extreme range");
     }
     std::mem::forget(set);
